@@ -130,6 +130,11 @@ pub struct PModule {
     /// 4 a comment line, 5 a module docstring
     #[serde(default)]
     pub header: u8,
+    /// how the document reaches its final text (read by C15 only): 0 opened once; 1 an earlier version with a blank
+    /// line on the other side of the module was opened first; 2 the same inside a document of more than 4 KiB whose
+    /// first and last 2 KiB and length do not change; 3 an unrelated earlier version of the same length class
+    #[serde(default)]
+    pub prior: u8,
 }
 
 #[derive(Clone, Debug)]
@@ -259,8 +264,9 @@ pub fn module(cfg: PyGenCfg) -> impl Strategy<Value = PModule> {
     ];
     let bits = if cfg.decorations { prop_oneof![3 => Just(0u8), 2 => 0u8..16].boxed() } else { Just(0u8).boxed() };
     let header = if cfg.decorations { prop_oneof![4 => Just(0u8), 3 => 1u8..6].boxed() } else { Just(0u8).boxed() };
-    (vec(item, 1..=6), bits, header).prop_map(|(items, deco_bits, header)| {
-        let mut m = PModule { items, deco_bits, header };
+    let prior = if cfg.decorations { prop_oneof![3 => Just(0u8), 1 => Just(1u8), 2 => Just(2u8), 1 => Just(3u8)].boxed() } else { Just(0u8).boxed() };
+    (vec(item, 1..=6), bits, header, prior).prop_map(|(items, deco_bits, header, prior)| {
+        let mut m = PModule { items, deco_bits, header, prior };
         normalise(&mut m);
         m
     })
